@@ -79,7 +79,10 @@ impl<W: AsyncWrite> AsyncWrite for BufWriter<W> {
             })
             .expect("Closure always return Ok");
 
-        (_, buf) = buf_try!(self.flush_if_needed().await, buf);
+        // The bytes are accepted now. An error of this flush must not fail the
+        // call (the caller would write the same bytes again): it surfaces at the
+        // next write or flush, which flush first.
+        let _ = self.flush_if_needed().await;
 
         BufResult(Ok(written), buf)
     }
@@ -105,7 +108,10 @@ impl<W: AsyncWrite> AsyncWrite for BufWriter<W> {
             })
             .expect("Closure always return Ok");
 
-        (_, buf) = buf_try!(self.flush_if_needed().await, buf);
+        // The bytes are accepted now. An error of this flush must not fail the
+        // call (the caller would write the same bytes again): it surfaces at the
+        // next write or flush, which flush first.
+        let _ = self.flush_if_needed().await;
 
         BufResult(Ok(written), buf)
     }
